@@ -56,6 +56,9 @@ fn main() {
         p @ ("C01" | "C02" | "C03" | "C04") => cvx::checks::static_checks::run(p, tier),
         "C07" => cvx::checks::static_checks::run_c07(tier),
         "C18" => cvx::checks::c18::run(tier),
+        "C10" => cvx::checks::c10::run(tier),
+        "C19" => cvx::checks::c19::run(tier),
+        "C12" => cvx::checks::c12::run(tier),
         "C08" => cvx::checks::dyn_checks::run_c08(tier),
         "C09" => cvx::checks::dyn_checks::run_c09(tier),
         "C17" => cvx::checks::c17::run(tier),
